@@ -114,6 +114,9 @@ structure Tx where
   actions : List (List Op)
   /-- `tx.Size()` (builder only) -/
   size : Nat := 0
+  /-- `tx.StateKeys(bh)` succeeds (every declared key is well-formed, `keys.Valid`). Used by the
+  builder model only (drop path, builder.go:179-186); C01's model assumes it. -/
+  keysOk : Bool := true
 
 /-- `Keys.Has` looks up `k[string(key)]`; a missing key yields permission 0 -/
 def Tx.perm (t : Tx) (k : Key) : Perm :=
